@@ -8,6 +8,7 @@
     ones are dropped from it) is not part of this model; it is observed by the
     harness (schedule points at connection creation) and judged per query. *)
 From Verif Require Import Base.Prelude Gen.Constants Gen.RetryFacts Model.Retry Proofs.Retry.
+From Verif Require Model.Reuse Proofs.Reuse.
 Open Scope N_scope.
 
 (** No query makes more than 4 passes through the loop, hence is never
@@ -62,3 +63,18 @@ Example c08_nonvacuous :
   /\ loop reuse_cfg 0 [Exch (mkAtt false false false); Exch (mkAtt false false false); Exch (mkAtt false false false);
                        Exch (mkAtt false false false); Exch (mkAtt true true false)] = (FErr, 4%nat).
 Proof. split; reflexivity. Qed.
+
+(** * The pool of the non-pipelined transport (Model.Reuse): dead connections are removed when detected *)
+Import Model.Reuse Proofs.Reuse.
+
+Theorem c08_reuse_dead_conn_removed ls s n :
+  xrun xinit ls = Some s -> xclosed (conns s n) = true -> ~ In n (cset s) /\ ~ In n (idle s).
+Proof. exact (reuse_dead_conn_removed ls s n). Qed.
+Print Assumptions c08_reuse_dead_conn_removed.
+
+(** … so the pool never hands out a connection it knows to be closed. *)
+Theorem c08_reuse_idle_conn_is_open ls s c n s' :
+  xrun xinit ls = Some s -> xstep s (MGetIdle c (Some n)) = Some s' -> tclosed s = false ->
+  xexists (conns s n) = true /\ xclosed (conns s n) = false.
+Proof. exact (reuse_idle_conn_is_open ls s c n s'). Qed.
+Print Assumptions c08_reuse_idle_conn_is_open.
